@@ -150,7 +150,7 @@ def r08_2(ctx, rid="R08.2"):
                                 ok = cm.get(("call", "std::vec::Vec::is_empty", (x,))) == 1 or (any(a[0] == "bin" and a[1] == "Eq" and a[2] == ("call", "std::vec::Vec::len", (x,)) and a[3] == ("const", 1) and v == 1 for a, v in p.conds) and any(b[0] == "call" and b[1] == "std::vec::Vec::pop" and b[2][0] == x for b in before))
                                 why = "vector of subtrees dropped while it may be non-empty"
                             elif ty.startswith("std::option::Option<"):
-                                ok = cm.get(("call", "std::option::Option::is_some", (x,))) == 0 or (x[0] == "call" and x[1] == "std::collections::HashMap::insert") or cm.get(("disc", x, "std::option::Option")) == "None"
+                                ok = (x[0] == "agg" and x[2] == "None") or cm.get(("call", "std::option::Option::is_some", (x,))) == 0 or (x[0] == "call" and x[1] == "std::collections::HashMap::insert") or cm.get(("disc", x, "std::option::Option")) == "None"
                                 why = "a stored value (Option<V>) is dropped while it may be Some"
                             elif ty.startswith(ITEM) or ty == ITEM + "<V>":
                                 ok = cm.get(("call", ITEM + "::is_empty", (x,))) == 1
